@@ -116,7 +116,7 @@ fn persist_checks(orig: &mut NbCore<14, 0>, cfg: &DevCfg, history_replay: &dyn F
     twin.dev.set_adr(snap.adr_enabled);
     // set_adr(false) resets the ADR counter by design: re-install the session afterwards
     if !snap.adr_enabled
-        && let Ok(s2) = serde_json::from_str::<Session>(&doc)
+        && let Ok(Ok(s2)) = catch(|| serde_json::from_str::<Session>(&doc))
     {
         twin.dev.set_session(s2);
     }
@@ -440,7 +440,7 @@ pub fn run(tier: Tier, replay: Option<&str>) {
             for (sig, what) in eval_doc("EU868", text) {
                 ctx.violation(sig, what, serde_json::to_value(DocCase { region: "EU868".into(), text: text.clone(), label: label.clone() }).unwrap(), 1);
             }
-            if serde_json::from_str::<Session>(text).is_ok() {
+            if matches!(catch(|| serde_json::from_str::<Session>(text).is_ok()), Ok(true)) {
                 accepted.fetch_add(1, Ordering::Relaxed);
             }
             muts.fetch_add(1, Ordering::Relaxed);
